@@ -91,3 +91,27 @@ def string_body_ok(t, start, length):
             cons.append(Not(starts_escape))  # body may not end in the middle of an escape
         esc_prev = starts_escape
     return cons
+
+
+def brackets_balanced(t, start, length, pairs=(("(", ")"), ("[", "]"), ("{", "}"))):
+    """the hole [start, start+length) is bracket-balanced the way a Rust token stream has to be (rustc does
+    not even lex a macro argument whose delimiters do not match): per bracket kind every prefix has at least
+    as many openers as closers and the totals agree.  (Kinds are tracked separately; the holes this is used
+    on are too short - and their alphabets too small - for interleavings like `([)]` to matter.)"""
+    import z3
+
+    def ind(b):
+        if b is True:
+            return z3.IntVal(1)
+        if b is False:
+            return z3.IntVal(0)
+        return z3.If(b, z3.IntVal(1), z3.IntVal(0))
+
+    cons = []
+    for op, cl in pairs:
+        depth = z3.IntVal(0)
+        for i in range(start, start + length):
+            depth = depth + ind(t.is_code(i, ord(op))) - ind(t.is_code(i, ord(cl)))
+            cons.append(depth >= 0)
+        cons.append(depth == 0)
+    return [z3.simplify(c) for c in cons]
